@@ -414,5 +414,5 @@ func genPoolCase(rt *rapid.T) poolCase {
 }
 
 func TestC15_PoolHistory(t *testing.T) {
-	h.Prop(t, h.P{Name: "pool-history", Quick: 250, Thorough: 8000}, genPoolCase, checkPoolHistory)
+	h.Prop(t, h.P{Name: "pool-history", Quick: 200, Thorough: 8000}, genPoolCase, checkPoolHistory)
 }
